@@ -119,7 +119,10 @@ def createExecutor (env : Env) (o : Opts) : Except Exc Plan :=
   -- check_cores_and_threads (fix 55646a2)
   if cores < 1 || o.rd.threads.getD 1 < 1 then .error .valueError else
   -- check_resource_limits (fix 812ce71), executors without block allocation
-  if !o.block && (match o.maxCores with | some mc => decide (mc < cores) | none => false) then .error .valueError else
+  -- (fix 8703212: times the executor-level threads_per_core, which the local back end does not hand on)
+  if !o.block && (match o.maxCores with
+      | some mc => decide (mc < cores * (if backend == .local then 1 else o.rd.threads.getD 1))
+      | none => false) then .error .valueError else
   if !o.block && o.maxCores.isNone && (match o.maxWorkers with | some mw => decide (mw < 1) | none => false) then .error .valueError else
   -- check_resource_dict_keys in the constructors of InteractiveExecutor / InteractiveStepExecutor (fix 1bb6f38):
   -- after the back-end specific deletions the only key a spawner class can reject is an unknown one
@@ -190,11 +193,14 @@ def submitCheck (p : Plan) (pc : RD) (fnHasResourceDictParam : Bool) : Except Ex
   let cores : Nat := match pc.cores with
     | none => dflt
     | some k => if k = 1 ∧ dflt ≥ 1 then dflt else k
+  -- `_default_threads_per_core` (fix 8703212): the executor-level value of a step executor, 1 otherwise
+  let dfltThr : Nat := match p.kind with | .step => p.rd.threads.getD 1 | _ => 1
+  let thr : Nat := pc.threads.getD dfltThr
   let tooBig : Bool := match p.maxCores with
-    | some mc => decide (mc < cores * pc.threads.getD 1)
+    | some mc => decide (mc < cores * thr)
     | none => false
   -- check_cores_and_threads (fix 55646a2) in `ExecutorBase.submit`
-  let nonPos : Bool := decide (cores < 1) || decide (pc.threads.getD 1 < 1)
+  let nonPos : Bool := decide (cores < 1) || decide (thr < 1)
   -- check_resource_dict_keys in `ExecutorBase.submit` (fix 1bb6f38): keys the spawner class does not take
   let badKey : Bool := pc.unknown || (match p.spawner with
     | .mpiexec => pc.gpus.isSome || pc.extra != .absent
@@ -238,7 +244,7 @@ def cwdUsable (p : Plan) (pc : RD) : Bool :=
   (effective p pc).cwd != .missing || p.spawner != .flux
 
 /-- slots the dispatcher accounts for this call -/
-def slots (p : Plan) (pc : RD) : Nat := ((effective p pc).cores.getD 1) * pc.threads.getD 1
+def slots (p : Plan) (pc : RD) : Nat := ((effective p pc).cores.getD 1) * (pc.threads <|> p.rd.threads).getD 1
 
 /-- SPEC: the accepted configuration can run the call: a worker can be started (keywords accepted,
     working directory exists, launcher available), at least one worker exists, the request fits the
